@@ -137,6 +137,7 @@ def decide(pid: str, tier: str) -> int:
                 obligations += obs
                 raw_logs[f"{kind}:{key}"] = raw
         for u in vunits:
+            assumptions_scan += [f"verus/{u.name}: trusted: {t}" for t in u.trusted]
             assumptions_scan += [f"verus/{u.name}: {a}" for a in u.assumptions_found]
 
         obligations.sort(key=lambda o: o.name)
